@@ -438,7 +438,7 @@ def run(chk):
                     propagation=[e['r'] for e in t3[0]['ev'] if e['op'] == 'Propagate'], verdict=v3[t3[0]['name']]['viol']))
     chk.cov['clauses'] = CLAUSES
     chk.cov['rule'] = ('cases = life cycles (design, twin design, 3 x export/reload/redesign, 4 reference propagations) of '
-                       'TLC-enumerated topologies x Span settings and of the shipped networks, plus SimParams settings '
+                       'TLC-enumerated topologies x Span settings, of the documents of the life-cycle model itself and of the shipped networks, plus SimParams settings '
                        'enumerated by TLC replayed around designed_network on Raman topologies; non-trivial = the life '
                        'cycle ran to the end (or a SimParams replay); distinct by chain composition + settings / file / '
                        'SimParams record')
@@ -449,6 +449,11 @@ def run(chk):
                '2-ROADM case and every 5th larger one; quick: one life cycle per chain kind under the 150 km quarter of the '
                'settings (two EOL = 0 settings when no user gain/VOA is involved), every other triangle, few Raman '
                'chains; exports pass through JSON text; one deep-copied equipment object per life cycle')
+    chk.assume('replayed model documents (MC_DesignLifecycle.MCReplay): trx A - roadm A - Edfa - 80 km fibre - Edfa - roadm B - '
+               'trx B, roadm A with a second degree; amplifiers with every pattern of given / missing gain_target 18 dB, '
+               'delta_p 1 dB, out_voa 2 dB, type_variety std_medium_gain (quick: every pattern at either amplifier, thorough: '
+               'every pair); roadm A default x per-degree equalisation in power / mW per GHz / mW per slot width; ROADM '
+               'restrictions to std_low_gain (gain-limited power reduction); padding 10 dB, EOL 0, both design modes')
     chk.assume('twin designs: (1) same process after a design with args_power on the same library object, (2) a new '
                'forked process that first designed with other libraries defining the same amplifier names, (3) new '
                'interpreters with PYTHONHASHSEED 1, 2, 3 (multiband cases)')
